@@ -89,6 +89,9 @@ Definition shard_for (g : group) (key : list N) : res N :=
    zero time *)
 Definition truncate (t d : Z) : Z := if d <=? 0 then t else t - ((t - zero_time) mod d).
 
+(* math.MinInt64 as Unix nanoseconds (= MinNanoTime - 2, checked in PMeta.min_int64_below) *)
+Definition min_int64 : Z := -9223372036854775808.
+
 (* shardN := 1; for shardN*replicaN % len(nodes) != 0 { shardN++ } *)
 Fixpoint shard_n_loop (fuel : nat) (k replica nodes : N) : res N :=
   match fuel with
@@ -126,7 +129,9 @@ Definition data_create (rp : policy) (m : meta) (t : Z) : res meta :=
     let start0 := truncate t (rp_sd rp) in
     let end0 := start0 + rp_sd rp in
     let end1 := if c08_max_nano_time <? end0 then c08_max_nano_time + 1 else end0 in
-    let se := fold_left (shrink t) (m_groups m) (start0, end1) in
+    (* the start is clamped to time.Unix(0, math.MinInt64) AFTER the end was computed *)
+    let start1 := if start0 <? min_int64 then min_int64 else start0 in
+    let se := fold_left (shrink t) (m_groups m) (start1, end1) in
     let sgid := (m_maxsg m + 1)%N in
     let g := mkG sgid (fst se) (snd se) false None (seqN (m_maxsh m + 1)%N (N.to_nat shardN)) in
     Ok (mkM (isort (m_groups m ++ [g])) sgid (m_maxsh m + shardN)%N (m_nodes m)))
